@@ -166,9 +166,10 @@ class KernelEval:
         s.cache[ck] = (r, st)
         return r, st
 
-    def outputs_at(s, fam, mode, backend, k, chans=("x1", "x2")):
-        """5-tuple of X for a concrete segment-count regime (k = 1 or 2), or an Opaque."""
+    def outputs_at(s, fam, mode, backend, k, chans=("x1", "x2"), p1=None):
+        """5-tuple of X for a concrete segment-count regime (k = 1 or 2) and, for the poly family, a concrete basis width p1, or an Opaque."""
         val, _ = s.evaluate(fam, mode, backend, chans)
+        if p1 is not None: val = subst_val(val, {"Q.shape1": X.const(p1)})
         leaf, und = leaf_for_K(val, k)
         if und: return Opaque(f"branch condition not on the segment count: {und[0]}")
         if is_opaque(leaf): return leaf
@@ -205,19 +206,23 @@ def check_kernel(ctx, KE, fam, mode, backend, outputs=OUT, rule="R3-statistics")
     kmax = cond_constants(val0) + 1
     worst = HOLDS
     # the detrend basis comes from _build_Q(L, order), order in {1,2}: it has 2 or 3 columns
-    variants = [(None, val0, ref0)]
     chunked = None
     if has_chunk_param(node):
         # the NumPy kernels process the segments in chunks of _chunk: re-evaluate with a chunk size of 2 so that the
         # multi-chunk behaviour (K > _chunk, out of reach of any test) is compared with the definition as well
         chunked, _ = KE.evaluate(fam, mode, backend, chunk=2)
-    if fam == "poly" and _has_p1_cond(val0):
-        variants = []
+
+    def width_variants():
+        out = []
         for p1 in (2, 3):
             mp = {"Q.shape1": X.const(p1)}
-            variants.append((p1, subst_val(val0, mp), {rg: tuple(x.subst(mp) for x in tup) for rg, tup in ref0.items()}))
-    for name in outputs:
-        oi = OUT.index(name)
+            out.append((p1, subst_val(val0, mp), {rg: tuple(x.subst(mp) for x in tup) for rg, tup in ref0.items()}))
+        return out
+    # the detrend basis comes from _build_Q(L, order), order in {1,2}: it has 2 or 3 columns.  A kernel that branches on the width is
+    # instantiated for both; otherwise the width stays symbolic and is instantiated only if the symbolic comparison is inconclusive
+    base_variants = width_variants() if (fam == "poly" and _has_p1_cond(val0)) else [(None, val0, ref0)]
+
+    def decide(oi, name, variants):
         status = HOLDS; detail = ""; lhs = rhs = None
         for k, (p1, val, ref) in [(k, v) for k in range(0, kmax + 1) for v in variants]:
             leaf, und = leaf_for_K(val, k)
@@ -240,22 +245,36 @@ def check_kernel(ctx, KE, fam, mode, backend, outputs=OUT, rule="R3-statistics")
             if stt != HOLDS:
                 status = stt; detail = f"{name} for K={k} segments" + (f" and a {p1}-column basis" if p1 else "") + " differs from the windowed-DFT definition" + (f" ({why})" if why else "")
                 lhs, rhs = gx, want; break
+        return status, detail, lhs, rhs
+    for name in outputs:
+        oi = OUT.index(name)
+        status, detail, lhs, rhs = decide(oi, name, base_variants)
+        if status == UNKNOWN and fam == "poly" and base_variants[0][0] is None and "agree numerically" in detail:
+            status, detail, lhs, rhs = decide(oi, name, width_variants())
         if status != VIOLATED and chunked is not None:
             k = kmax
-            for p1 in ((2, 3) if fam == "poly" and _has_p1_cond(chunked) else (None,)):
-                mp = {"Q.shape1": X.const(p1)} if p1 else {}
-                leaf, und = leaf_for_K(subst_val(chunked, mp) if mp else chunked, k)
-                got = leaf[oi] if isinstance(leaf, tuple) and len(leaf) == 5 and not und else (leaf if is_opaque(leaf) else Opaque(f"multi-chunk variant not recognised: {leaf!r}"[:200]))
-                if is_opaque(got) or to_x(got) is None:
-                    st2 = VIOLATED if isinstance(got, Mismatch) else UNKNOWN
-                    if status == HOLDS or st2 == VIOLATED: status = st2; detail = f"chunks of 2: {getattr(got, 'why', got)!r}"[:300]
-                    break
-                want = ref0[regime_of(k)][oi]
-                if mp: want = want.subst(mp)
-                stt, why = compare(to_x(got), want, prepare=prepare_env_chunks, seed=ctx.seed)
-                if stt == VIOLATED or (stt != HOLDS and status == HOLDS):
-                    status = stt; detail = f"{name} with the segments processed in several chunks (_chunk=2, K=5) differs from the windowed-DFT definition" + (f" ({why})" if why else "")
-                    lhs, rhs = to_x(got), want; break
+
+            def chunk_pass(widths, status, detail, lhs, rhs):
+                for p1 in widths:
+                    mp = {"Q.shape1": X.const(p1)} if p1 else {}
+                    leaf, und = leaf_for_K(subst_val(chunked, mp) if mp else chunked, k)
+                    got = leaf[oi] if isinstance(leaf, tuple) and len(leaf) == 5 and not und else (leaf if is_opaque(leaf) else Opaque(f"multi-chunk variant not recognised: {leaf!r}"[:200]))
+                    if is_opaque(got) or to_x(got) is None:
+                        st2 = VIOLATED if isinstance(got, Mismatch) else UNKNOWN
+                        if status == HOLDS or st2 == VIOLATED: status = st2; detail = f"chunks of 2: {getattr(got, 'why', got)!r}"[:300]
+                        break
+                    want = ref0[regime_of(k)][oi]
+                    if mp: want = want.subst(mp)
+                    stt, why = compare(to_x(got), want, prepare=prepare_env_chunks, seed=ctx.seed)
+                    if stt == VIOLATED or (stt != HOLDS and status == HOLDS):
+                        status = stt; detail = f"{name} with the segments processed in several chunks (_chunk=2, K=5)" + (f" and a {p1}-column basis" if p1 else "") + " differs from the windowed-DFT definition" + (f" ({why})" if why else "")
+                        lhs, rhs = to_x(got), want; break
+                return status, detail, lhs, rhs
+            lazy = not (fam == "poly" and _has_p1_cond(chunked))
+            s0 = status
+            status, detail, lhs, rhs = chunk_pass((None,) if lazy else (2, 3), status, detail, lhs, rhs)
+            if lazy and fam == "poly" and status == UNKNOWN and s0 == HOLDS and "agree numerically" in detail:
+                status, detail, lhs, rhs = chunk_pass((2, 3), HOLDS, "", None, None)
         ctx.ob(f"{rule}[{name}]", key, status, detail, where, lhs=lhs, rhs=rhs)
         if status != HOLDS: worst = status
     return worst
@@ -303,3 +322,71 @@ def check_launch_coverage(ctx, KE, fam, mode, rule="R7-launch-grid"):
                          "the last segments are never computed and uninitialised device memory is averaged in", where, lhs=blocks)
         else:
             ctx.unknown(rule, key, f"launch grid {grid!r} is not the ceiling-division idiom and no uncovered K was found", where)
+
+
+def check_inputs_untouched(ctx, rule="R8-inputs-untouched"):
+    """no statistics kernel modifies any of its arguments (interprocedural effect summaries): the record is shared by all bins."""
+    from .effects import Effects
+    E = Effects(ctx.repo); m = 0
+    for backend in BACKENDS:
+        for fam in FAMILIES:
+            for mode in MODES:
+                key = kernel_key(fam, mode, backend)
+                if not ctx.repo.has(key): continue
+                sm = E.summary(key); m += 1
+                bad = [sm["params"][i] for i in sorted(sm["writes_param"])]
+                where = ctx.repo.where(key, ctx.repo.get(key))
+                if bad:
+                    sk = sm["sinks"][sm["params"].index(bad[0])][0]
+                    ctx.violated(rule, key, f"the kernel modifies its argument {bad[0]} in place ({sk.kind}: {sk.detail}): the record is shared by all bins, so the "
+                                 "statistics of every later bin are computed from altered samples", f"{key.split('::')[0]}:{getattr(sk.node, 'lineno', 0)}")
+                else:
+                    ctx.holds(rule, key, "no in-place effect reaches x1, x2, starts, w or Q (interprocedural effect summary)", where)
+    ctx.need("kernels summarised for effects", m, 18)
+
+
+def check_pair_identities(ctx, KE, rule="R5-kernel-identities", backends=None):
+    """kernel level, all backends: the auto statistic of a channel alone equals that in a pair; channel swap exchanges XX/YY,
+    keeps Re XY, flips Im XY; one segment gives |XY|^2 = XX*YY."""
+    K = "starts.shape0"
+    for backend in (backends or BACKENDS):
+        todo = [(f_, None) for f_ in FAMILIES]
+        while todo:
+            fam, p1 = todo.pop(0)
+            key = kernel_key(fam, "csd", backend); akey = kernel_key(fam, "auto", backend)
+            kw = ctx.repo.where(key, ctx.repo.get(key))
+            ctx.analysed(key, akey)
+            pair = KE.outputs_at(fam, "csd", backend, 2, p1=p1)
+            swp = KE.outputs_at(fam, "csd", backend, 2, ("x2", "x1"), p1=p1)
+            a1 = KE.outputs_at(fam, "auto", backend, 2, ("x1", "x2"), p1=p1)
+            a2 = KE.outputs_at(fam, "auto", backend, 2, ("x2", "x1"), p1=p1)
+            bad = next((z for z in (pair, swp, a1, a2) if is_opaque(z)), None)
+            if bad is not None:
+                ctx.ob(rule, key, VIOLATED if isinstance(bad, Mismatch) else UNKNOWN, bad.why, kw); continue
+            buf = []
+
+            def kl(name, lhs, rhs, detail, buf=buf, p1=p1, key=key, kw=kw):
+                st, why = compare(lhs, rhs, prepare=prepare_env, seed=ctx.seed)
+                buf.append((f"{rule}[{name}]", key + (f"[{p1}-column basis]" if p1 else ""), st, detail + (f" ({why})" if why else ""), kw, lhs if st != HOLDS else None, rhs if st != HOLDS else None))
+
+            def flush(buf=buf, fam=fam, p1=p1):
+                # a symbolic basis width that leaves a comparison inconclusive is instantiated (2 and 3 columns) instead
+                if p1 is None and fam == "poly" and any(b[2] == UNKNOWN and "agree numerically" in b[3] for b in buf):
+                    todo.extend([(fam, 2), (fam, 3)]); return
+                for r_, c_, st_, d_, w_, l_, rr_ in buf: ctx.ob(r_, c_, st_, d_, w_, lhs=l_, rhs=rr_)
+            kl("alone=pair:x", pair[0], a1[0], "mean |X|^2 of channel 1 in a pair vs analysed alone")
+            kl("alone=pair:y", pair[1], a2[0], "mean |Y|^2 of channel 2 in a pair vs analysed alone")
+            kl("swap:xx", swp[0], pair[1], "swapping the channels exchanges the auto statistics")
+            kl("swap:yy", swp[1], pair[0], "swapping the channels exchanges the auto statistics")
+            kl("swap:re", swp[2], pair[2], "Re<XY*> is symmetric under channel swap")
+            kl("swap:im", swp[3], -pair[3], "Im<XY*> changes sign under channel swap")
+            kl("swap:M2", swp[4], pair[4], "scatter is symmetric under channel swap")
+            one = KE.outputs_at(fam, "csd", backend, 1, p1=p1)
+            if is_opaque(one):
+                flush(); ctx.ob(f"{rule}[coh=1]", key, UNKNOWN, one.why, kw); continue
+            try:
+                o = [z.subst({K: X.const(1)}) for z in one]
+                kl("coh=1", o[2] * o[2] + o[3] * o[3], o[0] * o[1], "single segment: |XY|^2 = XX*YY (L3), i.e. coherence 1")
+            except Unknown as ex:
+                ctx.ob(f"{rule}[coh=1]", key, UNKNOWN, str(ex), kw)
+            flush()
